@@ -508,10 +508,16 @@ class C06(Spec):
         # more `removed` notifications for a (t0, key) than trials carrying it had been added: the queue
         # notified one cancellation twice (second pause re-cancels), and the surplus removal swallows the
         # re-presented trial at the extractor
-        for key, poss in sim['removed_pos'].items():
-            n_added = sum(1 for t in sim['trials'] if (t['t0'], t['stim']) == key and t['pos'] < poss[-1])
-            if len(poss) > n_added:
-                return 'C04-inherited-duplicate-removed'
+        import re
+        m = re.match(r'trial (\d+) \(stim \d+, start sample \d+, not cancelled\) yielded 0 epochs', failure or '')
+        if not m:
+            return None
+        tr = sim['trials'][int(m.group(1))]
+        key = (tr['t0'], tr['stim'])
+        poss = sim['removed_pos'].get(key, [])
+        n_added = sum(1 for t in sim['trials'] if (t['t0'], t['stim']) == key and t['pos'] < (poss[-1] if poss else 0))
+        if len(poss) > n_added:
+            return 'C04-inherited-duplicate-removed'
         return None
 
     def neighbours(self, case, rng):
